@@ -98,7 +98,9 @@ def effect_rule(chk, prog, closure, rule_r1, rule_r2, label, written=None):
 def entry_points(prog, tier):
     roots = []
     for f in prog.functions:
-        if f.classq == 'celma::prog_args::Handler' and f.d.get('access', 0) == 0:
+        if f.classq == 'celma::prog_args::Handler':
+            # every member: the private ones are reached through callables (std::function, generic lambdas created by
+            # the addArgument...() functions) that the call graph cannot follow
             roots.append(f)
         elif f.name in ('celma::prog_args::evalArgumentString',):
             roots.append(f)
@@ -190,6 +192,14 @@ def run(chk):
                             deps.append('this')
                         elif x.get('k') == 'DeclRefExpr' and x.get('ref', {}).get('sto') in ('param', 'local'):
                             deps.append(x['ref']['name'])
+                # a function-local static that is not const is one mutable object for all handlers and threads that reach
+                # the function (a stateful helper, a scratch buffer): no handler path may own one
+                t0 = (d.get('t') or '')
+                if not t0.startswith('const ') and ' const' not in t0.split('<')[0] and \
+                        not effects.is_self_synchronised(t0) and 'mutex' not in t0 and 'once_flag' not in t0:
+                    chk.check(False, 'R4', f.name, 'no mutable function-local static %s on handler paths' % d['name'],
+                              f.loc(n_), 'static %s %s is shared by every handler and thread that comes here; reached '
+                              'via %s' % (t0[:60], d['name'], ' <- '.join(reversed(call_path(closure, key)[-4:]))))
                 # a static (smart) pointer to a NON-const object is one mutable object shared by every handler that gets
                 # it - the pointer may be const, the pointee is not
                 t = (d.get('t') or '')
